@@ -1329,6 +1329,10 @@ class Interp:
             return join_all([self.call_method(m, name, node, args, kwargs, env, fr) for m in recv.members if not only_none(m)])
         a0 = args[0] if args else None
         recv_name = node.func.value.id if isinstance(node.func, ast.Attribute) and isinstance(node.func.value, ast.Name) else None
+        if isinstance(recv, _Top) and name == "sort" and recv_name and not args and not kwargs:
+            # `x.sort()` on a local of unknown kind: whatever it held, it is a sorted list afterwards
+            env[recv_name] = Lst(TOP, True)
+            return NONE
         if isinstance(recv, Dct):
             if name == "keys":
                 return Lst(recv.key if recv.key != EMPTY else TOP)
@@ -1383,7 +1387,16 @@ class Interp:
                 return recv.elem
             if name == "copy":
                 return Lst(recv.elem, recv.sorted)
-            if name in ("sort", "reverse", "clear", "insert"):
+            if name == "sort":
+                # in-place sort of a local list: from here on it is a sorted list (tuple(x) is then canonical)
+                if recv_name and not recv.tag and not kwargs and not args:
+                    env[recv_name] = Lst(recv.elem, True)
+                return NONE
+            if name in ("reverse", "insert"):
+                if recv_name and not recv.tag and recv.sorted:
+                    env[recv_name] = Lst(recv.elem, False)
+                return NONE
+            if name in ("clear",):
                 return NONE
             return TOP
         if isinstance(recv, St):
